@@ -8,6 +8,13 @@
 (*     denotes such a measure (DistOf): dict / table (weights w/d as listed), pairs      *)
 (*     (from_pairs: duplicates are summed), uniform, det, softmax (scores are integer    *)
 (*     multiples of ln 2, so that the probabilities 2^k/Z are exact rationals).          *)
+(*     Softmax corner inputs: a score of -infinity (flag ni[i] = 1: a forbidden event)    *)
+(*     has probability exactly 0 and stays in the support; a finite score more than       *)
+(*     TINYGAP*ln 2 below the maximum has a probability in (0, 2^-TINYGAP]: its weight is  *)
+(*     not tracked - the abstract measure carries 0 for it and the event is a member of   *)
+(*     the state variable `tiny` ("carries an untracked weight <= 2^-64 of the mass"), so  *)
+(*     the other probabilities are exact up to a relative 2^-60 (the comparison tolerance  *)
+(*     of the harness is 1e-9) and a draw of a tiny event is an enabled Sample.            *)
 (* (O) exact oracle: the laws at the bottom of the module (each written independently of  *)
 (*     the fold that computes the operation) + the expected measure after every step.    *)
 (* (R) reference machine: one action per operation of the code, shaped like the code     *)
@@ -26,8 +33,8 @@ EXTENDS Num, Json, IOUtils
 Batch == JsonDeserialize(IOEnv.BATCH_FILE)
 Mode  == IOEnv.MODE
 
-VARIABLES iid, n, cur, sc, hist, l, phase
-vars == <<iid, n, cur, sc, hist, l, phase>>
+VARIABLES iid, n, cur, sc, tiny, hist, l, phase
+vars == <<iid, n, cur, sc, tiny, hist, l, phase>>
 
 ZeroR == <<0, 1>>
 OneR  == <<1, 1>>
@@ -56,18 +63,26 @@ Scale(D, a) == [ev |-> D.ev, p |-> TLCEval([i \in 1..Len(D.p) |-> RMul(D.p[i], a
 
 RECURSIVE Pow2(_)
 Pow2(k) == IF k = 0 THEN 1 ELSE 2 * Pow2(k - 1)
-\* exp(s - max) / Z with s = k ln 2
-Softmax(ev, k) ==
-  LET mx == MaxSet(Range(k))
-      u  == [i \in 1..Len(k) |-> <<1, Pow2(mx - k[i])>>]
+\* exp(s - max) / Z with s = k ln 2; ni[i] = 1 marks a score of -infinity (at least one score is finite)
+TINYGAP == 64
+NEARGAP == 8        \* instance filter: a finite score is within NEARGAP of the maximum or more than TINYGAP below
+SMax(k, ni) == MaxSet({k[i] : i \in {x \in 1..Len(k) : ni[x] = 0}})
+IsTiny(k, ni, i) == ni[i] = 0 /\ SMax(k, ni) - k[i] > TINYGAP
+Softmax(ev, k, ni) ==
+  LET mx == SMax(k, ni)
+      u  == [i \in 1..Len(k) |-> IF ni[i] = 1 \/ IsTiny(k, ni, i) THEN ZeroR ELSE <<1, Pow2(mx - k[i])>>]
       z  == RSumTo(u, Len(k))
   IN [ev |-> ev, p |-> TLCEval([i \in 1..Len(k) |-> RDiv(u[i], z)])]
+SoftmaxTiny(ev, k, ni) == {ev[i] : i \in {x \in 1..Len(k) : IsTiny(k, ni, x)}}
+SoftmaxOK(r) ==
+  /\ \E i \in 1..Len(r.k) : r.ni[i] = 0
+  /\ \A i \in 1..Len(r.k) : r.ni[i] = 0 => (SMax(r.k, r.ni) - r.k[i] <= NEARGAP \/ SMax(r.k, r.ni) - r.k[i] > TINYGAP)
 
 \* the measure denoted by a concrete representation
 DistOf(r) ==
   IF r.kind = "uniform" THEN [ev |-> r.ev, p |-> [i \in 1..Len(r.ev) |-> <<1, Len(r.ev)>>]]
   ELSE IF r.kind = "det" THEN [ev |-> <<r.ev[1]>>, p |-> <<OneR>>]
-  ELSE IF r.kind = "softmax" THEN Softmax(r.ev, r.k)
+  ELSE IF r.kind = "softmax" THEN Softmax(r.ev, r.k, r.ni)
   ELSE IF r.kind = "pairs" THEN Fold(Empty, r.ev, [i \in 1..Len(r.ev) |-> Norm(r.w[i], r.d)], 1)
   ELSE [ev |-> r.ev, p |-> [i \in 1..Len(r.ev) |-> Norm(r.w[i], r.d)]]      \* dict, table
 
@@ -139,10 +154,19 @@ Apply(m, D, s, op, j) ==
   ELSE IF op = "mix" THEN Mix(D, MixA(m, j), Opd(m, m.MX[j].o), MixB(m, j))
   ELSE IF op = "and" THEN AndD(D, Opd(m, j))
   ELSE IF op = "norm" THEN Normalize(D)
-  ELSE IF op = "shift" THEN Softmax(m.init.ev, [i \in 1..Len(s) |-> s[i] + m.C[j]])
+  ELSE IF op = "shift" THEN Softmax(m.init.ev, [i \in 1..Len(s) |-> s[i] + m.C[j]], m.init.ni)
   ELSE D                                                   \* expect: an observation
 Obs(m, D, op, j) == IF op = "expect" THEN Expect(D, ArgG(m, D, j)) ELSE ZeroR
-CanSample(D, e) == Has(D.ev, e) /\ (Len(D.ev) = 1 \/ RPos(PAt(D, e)))
+\* events of the result that may carry an untracked tiny weight (an over-approximation is sound: it only
+\* makes more draws admissible; operands and kernels are never wide, only the initial softmax can be)
+TinyAfter(m, D, tn, s, op, j, post) ==
+  IF tn = {} /\ op # "shift" THEN {}
+  ELSE IF op = "marg" THEN {ArgF(m, D, j)[i] : i \in {x \in 1..Len(D.ev) : D.ev[x] \in tn}}
+  ELSE IF op = "chain" THEN UNION {Supp(ArgK(m, D, j)[i]) : i \in {x \in 1..Len(D.ev) : D.ev[x] \in tn}}
+  ELSE IF op = "joint" THEN {<<a, b>> : a \in tn, b \in Supp(Opd(m, j))}
+  ELSE IF op = "shift" THEN SoftmaxTiny(m.init.ev, [i \in 1..Len(s) |-> s[i] + m.C[j]], m.init.ni)
+  ELSE tn \cap Supp(post)                                   \* cond, and, mix, norm, expect
+CanSample(D, tn, e) == Has(D.ev, e) /\ (Len(D.ev) = 1 \/ RPos(PAt(D, e)) \/ e \in tn)
 
 \* ------------------------------------------------------------------ machine
 Inst(i) == IF Mode = "trace" THEN Batch[i].inst ELSE Batch[i]
@@ -153,12 +177,15 @@ Init ==
   /\ phase = (IF Mode = "trace" THEN "replay" ELSE "run")
   /\ cur = DistOf(Inst(iid).init)
   /\ sc = Inst(iid).init.k
+  /\ tiny = (IF Inst(iid).init.kind = "softmax"
+             THEN SoftmaxTiny(Inst(iid).init.ev, Inst(iid).init.k, Inst(iid).init.ni) ELSE {})
 
 Step(op, j) ==
   /\ Enabled(M, cur, sc, n, op, j)
   /\ cur' = Apply(M, cur, sc, op, j)
   /\ sc' = IF op = "shift" THEN [i \in 1..Len(sc) |-> sc[i] + M.C[j]] ELSE sc
-  /\ hist' = Append(hist, [op |-> op, j |-> j, post |-> cur', obs |-> Obs(M, cur, op, j)])
+  /\ tiny' = TinyAfter(M, cur, tiny, sc, op, j, cur')
+  /\ hist' = Append(hist, [op |-> op, j |-> j, post |-> cur', obs |-> Obs(M, cur, op, j), tiny |-> tiny'])
   /\ n' = n + 1
 
 \* pipeline A / MC: every chain of DEPTH operations
@@ -169,8 +196,8 @@ Op ==
 \* MC only: a draw of sample() as an action of the model (bounded: one draw ends the behaviour)
 Sample ==
   /\ Mode = "mc" /\ phase = "run" /\ n = M.DEPTH
-  /\ \E i \in 1..Len(cur.ev) : CanSample(cur, cur.ev[i]) /\ phase' = "sampled" /\ l' = i
-  /\ UNCHANGED <<iid, n, cur, sc, hist>>
+  /\ \E i \in 1..Len(cur.ev) : CanSample(cur, tiny, cur.ev[i]) /\ phase' = "sampled" /\ l' = i
+  /\ UNCHANGED <<iid, n, cur, sc, tiny, hist>>
 
 \* pipeline B: the recorded trace names its chain; replay it with the same operators ...
 T == Batch[iid]
@@ -178,21 +205,21 @@ TraceOp ==
   /\ Mode = "trace" /\ phase = "replay" /\ n < Len(T.ops)
   /\ IF Enabled(M, cur, sc, n, T.ops[n + 1].op, T.ops[n + 1].j)
      THEN Step(T.ops[n + 1].op, T.ops[n + 1].j) /\ UNCHANGED <<iid, l, phase>>
-     ELSE phase' = "badchain" /\ UNCHANGED <<iid, n, cur, sc, hist, l>>
+     ELSE phase' = "badchain" /\ UNCHANGED <<iid, n, cur, sc, tiny, hist, l>>
 TraceStart ==
   /\ Mode = "trace" /\ phase = "replay" /\ n = Len(T.ops)
-  /\ phase' = "draws" /\ UNCHANGED <<iid, n, cur, sc, hist, l>>
+  /\ phase' = "draws" /\ UNCHANGED <<iid, n, cur, sc, tiny, hist, l>>
 \* ... then every recorded draw must be an enabled Sample, and the two equally seeded runs must agree
 TraceSample ==
   /\ Mode = "trace" /\ phase = "draws" /\ l <= Len(T.s1)
-  /\ IF ~CanSample(cur, T.s1[l]) THEN phase' = "rejected-event" /\ l' = l
+  /\ IF ~CanSample(cur, tiny, T.s1[l]) THEN phase' = "rejected-event" /\ l' = l
      ELSE IF l > Len(T.s2) \/ T.s2[l] # T.s1[l] THEN phase' = "rejected-seed" /\ l' = l
      ELSE phase' = phase /\ l' = l + 1
-  /\ UNCHANGED <<iid, n, cur, sc, hist>>
+  /\ UNCHANGED <<iid, n, cur, sc, tiny, hist>>
 TraceEnd ==
   /\ Mode = "trace" /\ phase = "draws" /\ l = Len(T.s1) + 1
   /\ phase' = (IF Len(T.s2) = Len(T.s1) THEN "accepted" ELSE "rejected-seed")
-  /\ UNCHANGED <<iid, n, cur, sc, hist, l>>
+  /\ UNCHANGED <<iid, n, cur, sc, tiny, hist, l>>
 
 Next == Op \/ Sample \/ TraceOp \/ TraceStart \/ TraceSample \/ TraceEnd
 Spec == Init /\ [][Next]_vars
@@ -201,7 +228,8 @@ Spec == Init /\ [][Next]_vars
 Emit ==
   IF Mode = "mc" THEN
     (phase = "run" /\ n = M.DEPTH) =>
-       PrintT(ToJson([iid |-> iid, init |-> DistOf(M.init), hist |-> hist]))
+       PrintT(ToJson([iid |-> iid, init |-> DistOf(M.init), hist |-> hist,
+                      tiny0 |-> IF M.init.kind = "softmax" THEN SoftmaxTiny(M.init.ev, M.init.k, M.init.ni) ELSE {}]))
   ELSE
     (phase \notin {"replay", "draws"}) =>
        PrintT(ToJson([tid |-> iid, tag |-> T.tag, verdict |-> phase, at |-> l,
@@ -274,19 +302,27 @@ LawExpect ==
     /\ Expect(Pre, [i \in 1..Len(g) |-> 3 * g[i] + 2]) = RAdd(RMul(<<3, 1>>, Last.obs), RMul(<<2, 1>>, Total(Pre)))
     /\ (\A i \in 1..Len(g) : g[i] = g[1]) => Last.obs = RMul(<<g[1], 1>>, Total(Pre))
     /\ \A i \in 1..Len(g) : (\A k \in 1..Len(g) : k # i => Pre.p[k] = ZeroR) => Last.obs = RMul(<<g[i], 1>>, Pre.p[i])
-\* softmax is normalised and shift-invariant
+\* softmax is normalised and shift-invariant; ratios are 2^delta among the tracked (non-tiny, finite) events;
+\* a -infinity score is probability exactly 0 (and not tiny); a tiny event carries 0 in the abstract measure
+PreTiny == IF n = 1 THEN SoftmaxTiny(M.init.ev, M.init.k, M.init.ni) ELSE hist[n - 1].tiny
 LawSoftmax ==
+  /\ (M.init.kind = "softmax") => SoftmaxOK(M.init)
   /\ (n = 0 /\ M.init.kind = "softmax") => Total(cur) = OneR
-  /\ Is("shift") => cur = Pre /\ Total(cur) = OneR
-  /\ (n = 0 /\ M.init.kind = "softmax") =>
-        \A a \in 1..Len(cur.ev) : \A b \in 1..Len(cur.ev) :
-           sc[a] >= sc[b] => cur.p[a] = RMul(<<Pow2(sc[a] - sc[b]), 1>>, cur.p[b])
+  /\ Is("shift") => cur = Pre /\ Total(cur) = OneR /\ tiny = PreTiny
+  /\ ((n = 0 \/ Is("shift")) /\ M.init.kind = "softmax") =>
+        /\ \A a \in 1..Len(cur.ev) : \A b \in 1..Len(cur.ev) :
+             (M.init.ni[a] = 0 /\ M.init.ni[b] = 0 /\ cur.ev[a] \notin tiny /\ cur.ev[b] \notin tiny /\ sc[a] >= sc[b])
+                => cur.p[a] = RMul(<<Pow2(sc[a] - sc[b]), 1>>, cur.p[b])
+        /\ \A a \in 1..Len(cur.ev) : M.init.ni[a] = 1 => (cur.p[a] = ZeroR /\ cur.ev[a] \notin tiny)
+        /\ \A a \in 1..Len(cur.ev) : cur.ev[a] \in tiny => (cur.p[a] = ZeroR /\ M.init.ni[a] = 0)
+        /\ \E a \in 1..Len(cur.ev) : RPos(cur.p[a])
 \* sampling only returns events of positive probability / the sole event of a one-point distribution
 LawSample ==
-  phase = "sampled" => (Len(cur.ev) = 1 \/ RPos(cur.p[l]))
+  phase = "sampled" => (Len(cur.ev) = 1 \/ RPos(cur.p[l]) \/ cur.ev[l] \in tiny)
 \* probabilities stay non-negative, supports duplicate free
 WellFormed ==
   /\ \A i \in 1..Len(cur.ev) : ~RLess(cur.p[i], ZeroR)
   /\ Cardinality(Supp(cur)) = Len(cur.ev)
   /\ Len(cur.p) = Len(cur.ev)
+  /\ tiny \subseteq Supp(cur)
 =============================================================================
